@@ -141,11 +141,14 @@ Handled == \/ Ev.e \in {"reset", "call", "ret", "hang", "panic", "junk"}
 \* connection churn inside a call (a reconnect after a failure) takes the rest of the scenario out of the fault-free quantifier
 \* ... but a client that drops its connection in the middle of a call although the terminal did nothing to it (no injected fault, no
 \* refused or stalling connect, no late reply, no exchange the client itself left unfinished) is not fault-free behaviour: abnormal
+\* a late reply: any delay - except, while a card is being read, one that stays below the card time-out the caller configured (the
+\* terminal reports "insert card" again and again while nobody presents one: that is the fault-free course of read_card)
+LateTx == Ev.e = "tx" /\ "after_ms" \in DOMAIN Ev /\ ~(pcall.op = "read_card" /\ Ev.after_ms < 1000 * cfg.timeout)
 Provoked == \/ Ev.e \in {"fault", "connect_stall", "connect_refused", "abandoned"}
-            \/ (Ev.e = "tx" /\ "after_ms" \in DOMAIN Ev)
+            \/ LateTx
 TSkip == /\ ~Handled
          /\ (IF Ev.e = "close" /\ pcall.op # "" /\ clean THEN PrintT(<<"PFLAG", sc, l, ToJson({"abnormal-connection-dropped-without-cause"})>>) ELSE TRUE)
-         /\ clean' = (clean /\ ~(Ev.e \in {"open", "fault", "connect_stall", "connect_refused", "abandoned"} \/ (Ev.e = "tx" /\ "after_ms" \in DOMAIN Ev)
+         /\ clean' = (clean /\ ~(Ev.e \in {"open", "fault", "connect_stall", "connect_refused", "abandoned"} \/ LateTx
                                  \/ (Ev.e = "close" /\ pcall.op # "")))
          /\ UNCHANGED <<cfg, sc, c, sync, cur, exs, pcall, open, hist>>
 
